@@ -218,6 +218,6 @@ theorem graph_write (D : Desc) (s : St) (i : SvcIn) : (processIoWrite D s i).1.s
   simp [processIoWrite]; crunch
 
 theorem graph_printCmd (D : Desc) (s : St) : (printCmdList D s).state ∈ [s.state, .printCmd, .flushWait] := by
-  simp [printCmdList, cmdListNextCmd]; crunch
+  simp [printCmdList, printCmdForm, cmdListNextCmd]; crunch
 
 end Cat
